@@ -1,11 +1,1148 @@
-// In-crate verification harness (stub; see /verif/docs/SLICE_GUIDE.md).
+// In-crate verification harness for property C12 (area `batch`), see /verif/docs/SLICE_GUIDE.md.
+//
+// Hooked as `relayer::write::verif` (child of `relayer/write/mod.rs`), so it reaches the private
+// `BlobSubmitter` (fields `next_submission`, `pending_block`, methods `has_capacity`,
+// `add_sequencer_block_to_next_submission`) and the `pub(super)` API of `write::conversion`
+// (`NextSubmission::{new,try_add,take}`, `Submission::*`, `InputMeta` via serde).
+//
+// What is REAL code here: `BlobSubmitter::{has_capacity, add_sequencer_block_to_next_submission}`
+// (hence `NextSubmission::try_add`, `Input::extend_from_sequencer_block`, `try_into_payload`,
+// brotli, `Blob::new`), `NextSubmission::take` / `TakeSubmission::poll`, every `Submission`
+// accessor, `IncludeRollup::parse/should_include`, `SequencerBlock::split_for_celestia`, and the
+// decode functions conductor uses (`decompress_bytes`, prost decode of the two list types,
+// `SubmittedMetadata::try_from_raw`, `SubmittedRollupData::try_from_raw`).
+// What is REPLICATED from `BlobSubmitter::run` (an async select loop that needs a Celestia gRPC
+// endpoint): the three lines of the `recv` arm (capacity guard, "already submitted" skip), the
+// `pending_block.take()` hand-over after a take, and the completion of the in-flight submission.
+// The relayer crate cannot depend on astria-conductor, so conductor's `convert.rs` steps are
+// replicated with the same astria-core functions.
 #![allow(clippy::pedantic, clippy::all, dead_code, unused_imports)]
 
 #[path = "/verif/harness/common.rs"]
 mod common;
 
+use std::{
+    collections::{
+        BTreeMap,
+        HashMap,
+    },
+    sync::Arc,
+};
+
+use astria_core::{
+    brotli::{
+        compress_bytes,
+        decompress_bytes,
+    },
+    crypto::SigningKey,
+    generated::astria::sequencerblock::v1::{
+        SubmittedMetadata as RawMeta,
+        SubmittedMetadataList,
+        SubmittedRollupData as RawRollup,
+        SubmittedRollupDataList,
+    },
+    primitive::v1::RollupId,
+    protocol::test_utils::{
+        ConfigureSequencerBlock,
+        UnixTimeStamp,
+    },
+    sequencerblock::v1::{
+        block,
+        SubmittedMetadata,
+        SubmittedRollupData,
+    },
+};
+use base64::prelude::*;
+use celestia_types::{
+    nmt::Namespace,
+    Blob,
+};
+use common::{
+    hex,
+    unhex,
+    Rng,
+    Trace,
+};
+use futures::FutureExt as _;
+use prost::Message as _;
+use sequencer_client::SequencerBlock;
+use sha2::{
+    Digest as _,
+    Sha256,
+};
+use telemetry::Metrics as _;
+use tokio_util::sync::CancellationToken;
+
+use super::{
+    conversion::{
+        self,
+        NextSubmission,
+        Submission,
+        TryAddError,
+    },
+    BlobSubmitter,
+};
+use crate::{
+    metrics::Metrics,
+    IncludeRollup,
+};
+
+/// `conversion::MAX_PAYLOAD_SIZE_BYTES` is private to `conversion`; the property fixes it.
+const LIMIT: usize = 1_000_000;
+
+// ---------------------------------------------------------------------------------------------
+// deterministic block construction
+// ---------------------------------------------------------------------------------------------
+
+fn rollup_id(k: u8) -> RollupId {
+    // ids 0/1 and 2/3 share their first 10 bytes, i.e. their Celestia namespace
+    let g = if k < 4 { k / 2 } else { k };
+    let mut b = [0u8; 32];
+    for (i, x) in b.iter_mut().enumerate() {
+        *x = if i < 10 {
+            0xA0u8.wrapping_add(g)
+        } else {
+            k.wrapping_mul(17).wrapping_add(i as u8)
+        };
+    }
+    RollupId::new(b)
+}
+
+fn fill_random(seed: u64, len: usize) -> Vec<u8> {
+    let mut rng = Rng(seed ^ 0x5851_F42D_4C95_7F2D);
+    let mut v = Vec::with_capacity(len + 8);
+    while v.len() < len {
+        v.extend_from_slice(&rng.next().to_le_bytes());
+    }
+    v.truncate(len);
+    v
+}
+
+#[derive(Clone, Debug)]
+struct BlockSpec {
+    height: u32,
+    chain: u8,
+    seed: u64,
+    flags: u8,
+    /// (rollup index, kind 'r' random / 'z' zeros, length)
+    data: Vec<(u8, char, usize)>,
+}
+
+impl BlockSpec {
+    fn to_tokens(&self) -> String {
+        let d = if self.data.is_empty() {
+            "-".to_string()
+        } else {
+            self.data
+                .iter()
+                .map(|(k, c, l)| format!("{k}:{c}:{l}"))
+                .collect::<Vec<_>>()
+                .join(",")
+        };
+        format!(
+            "h={} c={} s={} f={} d={}",
+            self.height, self.chain, self.seed, self.flags, d
+        )
+    }
+
+    fn parse(words: &[&str]) -> Option<Self> {
+        let mut spec = BlockSpec {
+            height: 0,
+            chain: 0,
+            seed: 0,
+            flags: 3,
+            data: vec![],
+        };
+        for w in words {
+            let (k, v) = w.split_once('=')?;
+            match k {
+                "h" => spec.height = v.parse().ok()?,
+                "c" => spec.chain = v.parse().ok()?,
+                "s" => spec.seed = v.parse().ok()?,
+                "f" => spec.flags = v.parse().ok()?,
+                "d" => {
+                    if v != "-" {
+                        for item in v.split(',') {
+                            let mut it = item.split(':');
+                            let k: u8 = it.next()?.parse().ok()?;
+                            let c: char = it.next()?.chars().next()?;
+                            let l: usize = it.next()?.parse().ok()?;
+                            spec.data.push((k, c, l));
+                        }
+                    }
+                }
+                _ => return None,
+            }
+        }
+        Some(spec)
+    }
+
+    fn chain_id(&self) -> String {
+        format!("batch-{}", self.chain)
+    }
+
+    fn make(&self) -> SequencerBlock {
+        let mut hash = [0u8; 32];
+        let d = Sha256::digest(format!("{}|{}|{}", self.height, self.chain, self.seed));
+        hash.copy_from_slice(&d);
+        let sequence_data = self
+            .data
+            .iter()
+            .enumerate()
+            .map(|(i, (k, c, l))| {
+                let bytes = match c {
+                    'z' => vec![0u8; *l],
+                    _ => fill_random(self.seed.wrapping_mul(31).wrapping_add(i as u64), *l),
+                };
+                (rollup_id(*k), bytes)
+            })
+            .collect();
+        ConfigureSequencerBlock {
+            block_hash: Some(block::Hash::new(hash)),
+            chain_id: Some(self.chain_id()),
+            height: self.height,
+            proposer_address: Some(tendermint::account::Id::new([7u8; 20])),
+            signing_key: Some(SigningKey::from([9u8; 32])),
+            sequence_data,
+            deposits: vec![],
+            unix_timestamp: UnixTimeStamp {
+                secs: 1_700_000_000 + i64::from(self.height),
+                nanos: 0,
+            },
+            use_data_items: true,
+            with_aspen: self.flags & 1 != 0,
+            with_extended_commit_info: self.flags & 2 != 0,
+        }
+        .make()
+    }
+}
+
+// ---------------------------------------------------------------------------------------------
+// canonical text of entries
+// ---------------------------------------------------------------------------------------------
+
+fn dig(bytes: &[u8]) -> String {
+    hex(&Sha256::digest(bytes)[..6])
+}
+
+fn ns_text(ns: &Namespace) -> String {
+    match ns.id_v0() {
+        Some(id) => hex(id),
+        None => hex(ns.as_bytes()),
+    }
+}
+
+fn raw_meta_height(raw: &RawMeta) -> u64 {
+    raw.header.as_ref().map_or(0, |h| h.height)
+}
+
+fn raw_rollup_id_hex(raw: &RawRollup) -> String {
+    raw.rollup_id
+        .as_ref()
+        .map_or_else(|| "-".to_string(), |id| hex(&id.inner))
+}
+
+fn meta_entry_text(raw: &RawMeta) -> String {
+    format!("{}.{}", raw_meta_height(raw), dig(&raw.encode_to_vec()))
+}
+
+fn rollup_entry_text(raw: &RawRollup) -> String {
+    format!("{}.{}", raw_rollup_id_hex(raw), dig(&raw.encode_to_vec()))
+}
+
+/// A source block in split form (`split_for_celestia`), raw.
+#[derive(Clone)]
+struct Source {
+    block: SequencerBlock,
+    height: u64,
+    hash: [u8; 32],
+    seq_ns: Namespace,
+    meta: RawMeta,
+    rollups: Vec<(RollupId, RawRollup)>,
+}
+
+impl Source {
+    fn new(block: SequencerBlock) -> Self {
+        let (meta, rollups) = block.clone().split_for_celestia();
+        let seq_ns = astria_core::celestia::namespace_v0_from_sha256_of_bytes(
+            meta.cometbft_chain_id().as_str().as_bytes(),
+        );
+        let mut hash = [0u8; 32];
+        hash.copy_from_slice(block.block_hash().as_bytes());
+        Source {
+            height: block.height().value(),
+            hash,
+            seq_ns,
+            meta: meta.into_raw(),
+            rollups: rollups
+                .into_iter()
+                .map(|r| (r.rollup_id(), r.into_raw()))
+                .collect(),
+            block,
+        }
+    }
+
+    /// `blk=<height>:<chain namespace>:<metadata digest>:<rollup>.<digest>+…` (block order)
+    fn text(&self) -> String {
+        let rs = if self.rollups.is_empty() {
+            "-".to_string()
+        } else {
+            self.rollups
+                .iter()
+                .map(|(_, raw)| rollup_entry_text(raw))
+                .collect::<Vec<_>>()
+                .join("+")
+        };
+        format!(
+            "{}:{}:{}:{}",
+            self.height,
+            ns_text(&self.seq_ns),
+            dig(&self.meta.encode_to_vec()),
+            rs
+        )
+    }
+}
+
+// ---------------------------------------------------------------------------------------------
+// reference computation of the candidate payload size (the `csize` oracle of the model)
+// ---------------------------------------------------------------------------------------------
+
+#[derive(Clone, Default)]
+struct Shadow {
+    seq_ns: Option<Namespace>,
+    metadata: Vec<RawMeta>,
+    rollups: Vec<(Namespace, Vec<RawRollup>)>,
+}
+
+impl Shadow {
+    fn extended(&self, src: &Source, filter: &IncludeRollup) -> Shadow {
+        let mut s = self.clone();
+        s.seq_ns.get_or_insert(src.seq_ns);
+        s.metadata.push(src.meta.clone());
+        for (id, raw) in &src.rollups {
+            if filter.should_include(id) {
+                let ns = astria_core::celestia::namespace_v0_from_rollup_id(*id);
+                match s.rollups.iter_mut().find(|(n, _)| *n == ns) {
+                    Some((_, list)) => list.push(raw.clone()),
+                    None => s.rollups.push((ns, vec![raw.clone()])),
+                }
+            }
+        }
+        s
+    }
+
+    /// sum of the brotli-compressed sizes of the protobuf-encoded lists
+    fn csize(&self) -> usize {
+        let mut total = compress_bytes(
+            &SubmittedMetadataList {
+                entries: self.metadata.clone(),
+            }
+            .encode_to_vec(),
+        )
+        .expect("compress")
+        .len();
+        for (_, entries) in &self.rollups {
+            total += compress_bytes(
+                &SubmittedRollupDataList {
+                    entries: entries.clone(),
+                }
+                .encode_to_vec(),
+            )
+            .expect("compress")
+            .len();
+        }
+        total
+    }
+}
+
+// ---------------------------------------------------------------------------------------------
+// session = one BlobSubmitter
+// ---------------------------------------------------------------------------------------------
+
+fn metrics() -> &'static Metrics {
+    Box::leak(Box::new(Metrics::noop_metrics(&()).unwrap()))
+}
+
+struct Session {
+    sub: BlobSubmitter,
+    _tx: tokio::sync::mpsc::Sender<Box<SequencerBlock>>,
+    filter: IncludeRollup,
+    last: u64,
+    inflight: Option<u64>,
+    failed: bool,
+    shadow: Shadow,
+    sources: HashMap<[u8; 32], Source>,
+}
+
+fn new_submitter(filter: IncludeRollup, m: &'static Metrics) -> (BlobSubmitter, tokio::sync::mpsc::Sender<Box<SequencerBlock>>) {
+    let state = Arc::new(crate::relayer::State::new());
+    let key = tendermint::private_key::Secp256k1::from_slice(
+        &unhex("c8076374e2a4a58db1c924e3dafc055e9685481054fe99e58ed67f5c6ed80e62"),
+    )
+    .unwrap();
+    let client_builder = crate::relayer::CelestiaClientBuilder::new(
+        "celestia-verif".to_string(),
+        0.002,
+        "http://127.0.0.1:1".parse().unwrap(),
+        crate::relayer::CelestiaKeys::from(key),
+        state.clone(),
+    )
+    .unwrap();
+    let (tx, rx) = tokio::sync::mpsc::channel(8);
+    let sub = BlobSubmitter {
+        client_builder,
+        blocks: rx,
+        next_submission: NextSubmission::new(filter, m),
+        state,
+        submission_state_at_startup: None,
+        submitter_shutdown_token: CancellationToken::new(),
+        pending_block: None,
+        metrics: m,
+    };
+    (sub, tx)
+}
+
+fn classify(err: &astria_eyre::eyre::Report) -> String {
+    for cause in err.chain() {
+        if let Some(e) = cause.downcast_ref::<TryAddError>() {
+            return match e {
+                TryAddError::Full(_) => "err:full-escaped".to_string(),
+                TryAddError::IntoPayload(_) => "err:into-payload".to_string(),
+                TryAddError::OversizedBlock {
+                    sequencer_height,
+                    compressed_size,
+                } => format!("err:oversized:{}:{}", sequencer_height.value(), compressed_size),
+            };
+        }
+    }
+    "err:other".to_string()
+}
+
+impl Session {
+    fn new(filter_ids: &[RollupId], last: u64, m: &'static Metrics) -> Self {
+        let text = filter_ids
+            .iter()
+            .map(|id| BASE64_STANDARD.encode(id.as_ref()))
+            .collect::<Vec<_>>()
+            .join(",");
+        let filter = IncludeRollup::parse(&text).expect("filter parses");
+        let (sub, tx) = new_submitter(filter.clone(), m);
+        Session {
+            sub,
+            _tx: tx,
+            filter,
+            last,
+            inflight: None,
+            failed: false,
+            shadow: Shadow::default(),
+            sources: HashMap::new(),
+        }
+    }
+
+    fn pend_text(&self) -> String {
+        self.sub
+            .pending_block
+            .as_ref()
+            .map_or_else(|| "-".to_string(), |b| b.height().value().to_string())
+    }
+
+    /// `add_sequencer_block_to_next_submission` on the real submitter; returns
+    /// (result word, candidate size, pending block is the very block handed in?)
+    fn add(&mut self, src: &Source) -> (String, usize, bool) {
+        let cand = self.shadow.extended(src, &self.filter);
+        let csize = cand.csize();
+        self.sources.insert(src.hash, src.clone());
+        let res = self
+            .sub
+            .add_sequencer_block_to_next_submission(src.block.clone());
+        match res {
+            Ok(()) => {
+                if let Some(p) = &self.sub.pending_block {
+                    ("full".to_string(), csize, *p == src.block)
+                } else {
+                    self.shadow = cand;
+                    ("ok".to_string(), csize, true)
+                }
+            }
+            Err(e) => {
+                self.failed = true;
+                (classify(&e), csize, true)
+            }
+        }
+    }
+
+    fn recv(&mut self, spec: &BlockSpec) -> String {
+        let src = Source::new(spec.make());
+        let blk = src.text();
+        // --- replica of the `recv` arm of `BlobSubmitter::run` ---
+        if self.failed {
+            return format!("stopped blk={blk} cand=- pend={}", self.pend_text());
+        }
+        if !self.sub.has_capacity() {
+            return format!("blocked blk={blk} cand=- pend={}", self.pend_text());
+        }
+        if src.height <= self.last {
+            return format!("skipped blk={blk} cand=- pend={}", self.pend_text());
+        }
+        let (res, csize, same) = self.add(&src);
+        format!(
+            "{res} blk={blk} cand={csize} pend={} # same={same}",
+            self.pend_text()
+        )
+    }
+
+    fn takedrop(&mut self) -> String {
+        // the future is created and dropped without being polled: nothing may move
+        let fut = self.sub.next_submission.take();
+        drop(fut);
+        "ok".to_string()
+    }
+
+    fn take(&mut self) -> String {
+        // --- replica of the `take` arm of `BlobSubmitter::run` ---
+        if self.failed {
+            return "stopped".to_string();
+        }
+        if self.inflight.is_some() {
+            return "busy".to_string();
+        }
+        let taken = self
+            .sub
+            .next_submission
+            .take()
+            .now_or_never()
+            .expect("TakeSubmission is ready on first poll");
+        let Some(submission) = taken else {
+            return "none".to_string();
+        };
+        let (cmp, extra, greatest) = self.dump_submission(submission);
+        self.inflight = Some(greatest);
+        self.shadow = Shadow::default();
+        let mut ho = "ho=- hblk=- hcand=-".to_string();
+        let mut same = true;
+        if let Some(block) = self.sub.pending_block.take() {
+            let src = Source::new(block);
+            let (res, csize, s) = self.add(&src);
+            same = s;
+            ho = format!("ho={res} hblk={} hcand={csize}", src.text());
+        }
+        format!("sub {cmp} {ho} pend={} # {extra} same={same}", self.pend_text())
+    }
+
+    fn done(&mut self) -> String {
+        // --- replica of the completion arm (+ `PreparedSubmission::construct_and_write` ensure!) ---
+        if self.failed {
+            return "stopped".to_string();
+        }
+        match self.inflight.take() {
+            None => "idle".to_string(),
+            Some(h) => {
+                if h > self.last {
+                    self.last = h;
+                    format!("completed:{h}")
+                } else {
+                    self.failed = true;
+                    "submit-failed".to_string()
+                }
+            }
+        }
+    }
+
+    fn end(&mut self) -> String {
+        format!(
+            "pend={} cap={} failed={}",
+            self.pend_text(),
+            self.sub.has_capacity(),
+            self.failed
+        )
+    }
+
+    /// Everything observable about a `Submission`; returns (compared part, implementation-only
+    /// part, greatest height).
+    fn dump_submission(&self, submission: Submission) -> (String, String, u64) {
+        let nb = submission.num_blocks();
+        let nblobs = submission.num_blobs();
+        let csz = submission.compressed_size();
+        let usz = submission.uncompressed_size();
+        let greatest = submission.greatest_sequencer_height().value();
+        let meta = serde_json::to_value(submission.input_metadata()).expect("InputMeta serializes");
+        let heights = meta["sequencer_heights"]
+            .as_array()
+            .map(|a| {
+                a.iter()
+                    .map(|v| v.as_u64().map_or_else(|| v.to_string(), |n| n.to_string()))
+                    .collect::<Vec<_>>()
+                    .join(",")
+            })
+            .unwrap_or_default();
+        let b64 = |s: &str| -> Vec<u8> {
+            BASE64_STANDARD
+                .decode(s)
+                .or_else(|_| BASE64_URL_SAFE.decode(s))
+                .unwrap_or_default()
+        };
+        let ns_of_b64 = |s: &str| -> String {
+            let bytes = b64(s);
+            if bytes.len() == 29 {
+                hex(&bytes[19..])
+            } else {
+                hex(&bytes)
+            }
+        };
+        let seqns = meta["sequencer_namespace"]
+            .as_str()
+            .map_or_else(|| "-".to_string(), |s| ns_of_b64(s));
+        let mut incl: Vec<String> = meta["rollups_included"]
+            .as_object()
+            .map(|m| {
+                m.iter()
+                    .map(|(k, v)| format!("{}>{}", hex(&b64(k)), ns_of_b64(v.as_str().unwrap_or(""))))
+                    .collect()
+            })
+            .unwrap_or_default();
+        incl.sort();
+        let mut excl: Vec<String> = meta["rollups_excluded"]
+            .as_array()
+            .map(|a| a.iter().map(|v| hex(&b64(v.as_str().unwrap_or("")))).collect())
+            .unwrap_or_default();
+        excl.sort();
+
+        let blobs = submission.into_blobs();
+        let real: usize = blobs.iter().map(|b| b.data.len()).sum();
+
+        // --- conductor-style decoding (convert.rs): decompress, decode the list, try_from_raw ---
+        let mut ureal = 0usize;
+        let mut blob_texts: Vec<String> = vec![];
+        let mut dec_meta: Vec<RawMeta> = vec![];
+        let mut dec_rollup: Vec<(Namespace, RawRollup)> = vec![];
+        let mut malformed = 0usize;
+        let seq_ns_real = blobs.first().map(|b| b.namespace);
+        for (i, blob) in blobs.iter().enumerate() {
+            let ns = ns_text(&blob.namespace);
+            let Ok(data) = decompress_bytes(&blob.data) else {
+                blob_texts.push(format!("{ns}:X:decompress"));
+                malformed += 1;
+                continue;
+            };
+            ureal += data.len();
+            // the first blob is the metadata list (conductor fetches it under the sequencer
+            // namespace); all others are rollup lists (fetched under the rollup's namespace)
+            if i == 0 {
+                match SubmittedMetadataList::decode(&*data) {
+                    Ok(list) => {
+                        blob_texts.push(format!(
+                            "{ns}:M:{}",
+                            list.entries.iter().map(meta_entry_text).collect::<Vec<_>>().join("+")
+                        ));
+                        let all_ok = list
+                            .entries
+                            .iter()
+                            .all(|raw| SubmittedMetadata::try_from_raw(raw.clone()).is_ok());
+                        if all_ok {
+                            dec_meta.extend(list.entries);
+                        } else {
+                            malformed += 1;
+                        }
+                    }
+                    Err(_) => {
+                        blob_texts.push(format!("{ns}:X:decode"));
+                        malformed += 1;
+                    }
+                }
+            } else {
+                match SubmittedRollupDataList::decode(&*data) {
+                    Ok(list) => {
+                        blob_texts.push(format!(
+                            "{ns}:R:{}",
+                            list.entries.iter().map(rollup_entry_text).collect::<Vec<_>>().join("+")
+                        ));
+                        let all_ok = list
+                            .entries
+                            .iter()
+                            .all(|raw| SubmittedRollupData::try_from_raw(raw.clone()).is_ok());
+                        if all_ok {
+                            dec_rollup.extend(list.entries.into_iter().map(|e| (blob.namespace, e)));
+                        } else {
+                            malformed += 1;
+                        }
+                    }
+                    Err(_) => {
+                        blob_texts.push(format!("{ns}:X:decode"));
+                        malformed += 1;
+                    }
+                }
+            }
+        }
+        // canonical order: metadata blob first, then rollup blobs by namespace (HashMap order in the code)
+        let split = usize::from(!blob_texts.is_empty());
+        let (first, rest) = blob_texts.split_at_mut(split);
+        rest.sort();
+        let blobs_text = first
+            .iter()
+            .chain(rest.iter())
+            .cloned()
+            .collect::<Vec<_>>()
+            .join(";");
+
+        // --- per source block: is what conductor would get exactly the block's data? ---
+        let mut dec: Vec<String> = vec![];
+        let mut used_rollup = vec![false; dec_rollup.len()];
+        let mut orphans = 0usize;
+        for m in &dec_meta {
+            let mut hash = [0u8; 32];
+            if m.block_hash.len() == 32 {
+                hash.copy_from_slice(&m.block_hash);
+            }
+            let Some(src) = self.sources.get(&hash) else {
+                orphans += 1;
+                continue;
+            };
+            let meta_ok = *m == src.meta
+                && seq_ns_real.is_some()
+                && dec_meta.iter().filter(|x| x.block_hash == m.block_hash).count() == 1;
+            let mut want = 0usize;
+            let mut got = 0usize;
+            for (id, raw) in &src.rollups {
+                if !self.filter.should_include(id) {
+                    continue;
+                }
+                want += 1;
+                let ns = astria_core::celestia::namespace_v0_from_rollup_id(*id);
+                let hits: Vec<usize> = dec_rollup
+                    .iter()
+                    .enumerate()
+                    .filter(|(_, (n, e))| {
+                        *n == ns
+                            && e.sequencer_block_hash == raw.sequencer_block_hash
+                            && e.rollup_id == raw.rollup_id
+                    })
+                    .map(|(i, _)| i)
+                    .collect();
+                if hits.len() == 1 && dec_rollup[hits[0]].1 == *raw {
+                    got += 1;
+                }
+                for i in hits {
+                    used_rollup[i] = true;
+                }
+            }
+            dec.push(format!("{}:{}:{got}/{want}", src.height, u8::from(meta_ok)));
+        }
+        orphans += used_rollup.iter().filter(|u| !**u).count();
+
+        let cmp = format!(
+            "nb={nb} nblobs={nblobs} gh={greatest} hs={} csz={csz} seqns={seqns} incl={} excl={} blobs={blobs_text}",
+            if heights.is_empty() { "-".to_string() } else { heights },
+            if incl.is_empty() { "-".to_string() } else { incl.join(",") },
+            if excl.is_empty() { "-".to_string() } else { excl.join(",") },
+        );
+        let extra = format!(
+            "usz={usz} ureal={ureal} real={real} malformed={malformed} orph={orphans} dec={}",
+            if dec.is_empty() { "-".to_string() } else { dec.join(",") }
+        );
+        (cmp, extra, greatest)
+    }
+}
+
+// ---------------------------------------------------------------------------------------------
+// op lines
+// ---------------------------------------------------------------------------------------------
+
+struct Exec {
+    session: Option<Session>,
+    metrics: &'static Metrics,
+}
+
+impl Exec {
+    fn exec(&mut self, op: &str) -> String {
+        let words: Vec<&str> = op.split(' ').filter(|w| !w.is_empty()).collect();
+        if words.len() < 2 || words[0] != "batch" {
+            return "err:bad-op".to_string();
+        }
+        if words[1] == "reset" {
+            // batch reset filter=all|<hex>,<hex> last=<n>
+            let mut ids = vec![];
+            let mut last = 0u64;
+            for w in &words[2..] {
+                if let Some(v) = w.strip_prefix("filter=") {
+                    if v != "all" {
+                        for h in v.split(',') {
+                            let bytes = unhex(h);
+                            if bytes.len() != 32 {
+                                return "err:bad-op".to_string();
+                            }
+                            let mut b = [0u8; 32];
+                            b.copy_from_slice(&bytes);
+                            ids.push(RollupId::new(b));
+                        }
+                    }
+                } else if let Some(v) = w.strip_prefix("last=") {
+                    last = v.parse().unwrap_or(0);
+                }
+            }
+            self.session = Some(Session::new(&ids, last, self.metrics));
+            return "ok".to_string();
+        }
+        let Some(s) = self.session.as_mut() else {
+            return "err:no-session".to_string();
+        };
+        match words[1] {
+            "recv" => match BlockSpec::parse(&words[2..]) {
+                Some(spec) => s.recv(&spec),
+                None => "err:bad-op".to_string(),
+            },
+            "take" => s.take(),
+            "takedrop" => s.takedrop(),
+            "done" => s.done(),
+            "end" => s.end(),
+            _ => "err:bad-op".to_string(),
+        }
+    }
+}
+
+// ---------------------------------------------------------------------------------------------
+// generation
+// ---------------------------------------------------------------------------------------------
+
+fn filter_token(ids: &[u8]) -> String {
+    if ids.is_empty() {
+        "all".to_string()
+    } else {
+        ids.iter()
+            .map(|k| hex(rollup_id(*k).as_ref()))
+            .collect::<Vec<_>>()
+            .join(",")
+    }
+}
+
+fn random_filter(rng: &mut Rng) -> Vec<u8> {
+    match rng.below(6) {
+        0 | 1 => vec![],                         // include everything
+        2 => vec![*rng.pick(&[0u8, 1, 2, 4, 5])], // one rollup
+        3 => vec![0, 2, 5],                      // several, incl. one half of each shared namespace
+        4 => vec![1, 3, 4, 6, 7],
+        _ => vec![200],                          // a rollup that never occurs: everything filtered
+    }
+}
+
+struct Gen {
+    rng: Rng,
+    next_seed: u64,
+}
+
+impl Gen {
+    fn spec(&mut self, height: u32, chain: u8, data: Vec<(u8, char, usize)>) -> BlockSpec {
+        self.next_seed += 1;
+        BlockSpec {
+            height,
+            chain,
+            seed: self.next_seed.wrapping_mul(0x9E37) ^ self.rng.below(1 << 20),
+            flags: self.rng.below(4) as u8,
+            data,
+        }
+    }
+
+    fn small_data(&mut self) -> Vec<(u8, char, usize)> {
+        let n = match self.rng.below(10) {
+            0 => 0,
+            1..=4 => self.rng.range(1, 2),
+            5..=8 => self.rng.range(3, 5),
+            _ => self.rng.range(6, 9),
+        };
+        (0..n)
+            .map(|_| {
+                let k = self.rng.below(8) as u8;
+                let c = if self.rng.chance(25) { 'z' } else { 'r' };
+                let l = match self.rng.below(4) {
+                    0 => 0,
+                    1 => self.rng.range(1, 40),
+                    2 => self.rng.range(41, 600),
+                    _ => self.rng.range(601, 3000),
+                } as usize;
+                (k, c, l)
+            })
+            .collect()
+    }
+
+    /// interleave take / done / takedrop around the recvs
+    fn glue(&mut self, ops: &mut Vec<String>, density: u64) {
+        while self.rng.chance(density) {
+            match self.rng.below(10) {
+                0..=3 => ops.push("batch take".to_string()),
+                4..=7 => ops.push("batch done".to_string()),
+                _ => ops.push("batch takedrop".to_string()),
+            }
+        }
+    }
+
+    fn drain(ops: &mut Vec<String>) {
+        for _ in 0..3 {
+            ops.push("batch done".to_string());
+            ops.push("batch take".to_string());
+        }
+        ops.push("batch end".to_string());
+    }
+
+    /// many small blocks, never near the limit
+    fn small_session(&mut self) -> Vec<String> {
+        let filter = random_filter(&mut self.rng);
+        let last = if self.rng.chance(30) { self.rng.range(1, 6) } else { 0 };
+        let mut ops = vec![format!("batch reset filter={} last={last}", filter_token(&filter))];
+        let adversarial = self.rng.chance(30);
+        let n = self.rng.range(3, 12);
+        let mut h = if self.rng.chance(50) { 1 } else { self.rng.range(1, 8) } as u32;
+        for _ in 0..n {
+            let chain = if adversarial && self.rng.chance(20) { 1 } else { 0 };
+            let data = self.small_data();
+            let spec = self.spec(h, chain, data);
+            ops.push(format!("batch recv {}", spec.to_tokens()));
+            self.glue(&mut ops, 35);
+            if adversarial {
+                // duplicates, gaps, going backwards
+                match self.rng.below(6) {
+                    0 => {}
+                    1 => h = h.saturating_sub(self.rng.range(1, 3) as u32).max(1),
+                    2 => h += self.rng.range(2, 5) as u32,
+                    _ => h += 1,
+                }
+            } else {
+                h += 1;
+            }
+        }
+        Self::drain(&mut ops);
+        ops
+    }
+
+    /// blocks of about LIMIT/div incompressible bytes: `div` or `div-1` of them fit
+    fn straddle_session(&mut self, div: usize, n: usize) -> Vec<String> {
+        let filter = if self.rng.chance(70) { vec![] } else { vec![0, 1, 4] };
+        let mut ops = vec![format!("batch reset filter={} last=0", filter_token(&filter))];
+        for i in 0..n {
+            let base = LIMIT / div;
+            let jitter = self.rng.range(0, (base / 6) as u64) as usize;
+            let total = base - base / 12 + jitter;
+            // spread over 1..3 rollups (all passing the filter)
+            let parts = self.rng.range(1, 3) as usize;
+            let ks = [0u8, 1, 4];
+            let data = (0..parts).map(|p| (ks[p], 'r', total / parts)).collect();
+            let spec = self.spec(1 + i as u32, 0, data);
+            ops.push(format!("batch recv {}", spec.to_tokens()));
+            if self.rng.chance(30) {
+                ops.push("batch takedrop".to_string());
+            }
+            // let the batch fill up: take only every `div` blocks (the last of them fits or not,
+            // depending on the jitter), sometimes earlier, sometimes while a submission is in flight
+            if (i + 1) % div.max(2) == 0 || self.rng.chance(12) {
+                if self.rng.chance(80) {
+                    ops.push("batch done".to_string());
+                }
+                ops.push("batch take".to_string());
+            }
+        }
+        Self::drain(&mut ops);
+        ops
+    }
+
+    /// many blocks of ~110 KB: the batch fills up over 8-9 blocks; `recv` is also attempted while
+    /// a block is pending (no capacity)
+    fn medium_session(&mut self, n: usize) -> Vec<String> {
+        let mut ops = vec![format!("batch reset filter={} last=0", filter_token(&[0, 1, 2, 3, 4]))];
+        for i in 0..n {
+            let total = 100_000 + self.rng.range(0, 25_000) as usize;
+            let data = vec![(0u8, 'r', total / 2), (1, 'r', total / 4), (3, 'r', total / 4), (7, 'r', 50_000)];
+            let spec = self.spec(10 + i as u32, 0, data);
+            ops.push(format!("batch recv {}", spec.to_tokens()));
+            if self.rng.chance(15) {
+                ops.push("batch done".to_string());
+                ops.push("batch take".to_string());
+            }
+        }
+        Self::drain(&mut ops);
+        ops
+    }
+
+    /// one block that is too large alone: hard error, first on an empty batch, then as the
+    /// pending block after a take
+    fn oversize_sessions(&mut self) -> Vec<Vec<String>> {
+        let mut out = vec![];
+        let big = LIMIT + 2_000 + self.rng.range(0, 5_000) as usize;
+        let mut ops = vec!["batch reset filter=all last=0".to_string()];
+        let spec = self.spec(1, 0, vec![(4, 'r', big)]);
+        ops.push(format!("batch recv {}", spec.to_tokens()));
+        let spec = self.spec(2, 0, vec![(4, 'r', 10)]);
+        ops.push(format!("batch recv {}", spec.to_tokens()));
+        Self::drain(&mut ops);
+        out.push(ops);
+
+        let mut ops = vec!["batch reset filter=all last=0".to_string()];
+        let spec = self.spec(1, 0, vec![(5, 'r', 2_000)]);
+        ops.push(format!("batch recv {}", spec.to_tokens()));
+        let spec = self.spec(2, 0, vec![(5, 'r', big)]);
+        ops.push(format!("batch recv {}", spec.to_tokens()));
+        let spec = self.spec(3, 0, vec![(5, 'r', 10)]);
+        ops.push(format!("batch recv {}", spec.to_tokens()));
+        Self::drain(&mut ops);
+        out.push(ops);
+        out
+    }
+
+    /// the limit is on the COMPRESSED size, and filtered data does not count
+    fn compressible_session(&mut self) -> Vec<String> {
+        // rollup 6 is excluded: its 1.2 MB of random data never reach the payload
+        let mut ops = vec![format!("batch reset filter={} last=0", filter_token(&[0, 1, 2, 4]))];
+        for i in 0..3u32 {
+            let spec = self.spec(
+                1 + i,
+                0,
+                vec![(0, 'z', 1_500_000), (6, 'r', 1_200_000), (2, 'r', 700)],
+            );
+            ops.push(format!("batch recv {}", spec.to_tokens()));
+        }
+        Self::drain(&mut ops);
+        ops
+    }
+
+    /// find data lengths so that the candidate payload is exactly LIMIT and LIMIT+1 bytes
+    fn boundary_sessions(&mut self, two_blocks: bool) -> Vec<Vec<String>> {
+        let filter = IncludeRollup::parse("").unwrap();
+        let first = if two_blocks {
+            Some(self.spec(1, 0, vec![(1, 'r', 480_000)]))
+        } else {
+            None
+        };
+        let base = first
+            .as_ref()
+            .map(|f| Shadow::default().extended(&Source::new(f.make()), &filter))
+            .unwrap_or_default();
+        // two knobs: a large incompressible entry (coarse; its compressed size jumps by a few
+        // bytes at brotli meta-block boundaries) and a small one in another blob (fine)
+        let mut probe = self.spec(
+            2,
+            0,
+            vec![(4, 'r', if two_blocks { 515_000 } else { 998_000 }), (5, 'r', 60)],
+        );
+        let mut found: Option<(usize, usize)> = None;
+        let size_at = |len: usize, fine: usize, probe: &mut BlockSpec| -> usize {
+            probe.data[0].2 = len;
+            probe.data[1].2 = fine;
+            base.extended(&Source::new(probe.make()), &filter).csize()
+        };
+        let mut len = probe.data[0].2;
+        let mut fine = probe.data[1].2;
+        let mut c = size_at(len, fine, &mut probe);
+        for _ in 0..6 {
+            let gap = LIMIT as i64 - c as i64;
+            if (0..=40).contains(&gap) {
+                break;
+            }
+            len = (len as i64 + gap - 10).max(1) as usize;
+            c = size_at(len, fine, &mut probe);
+        }
+        let mut seen: Vec<(usize, usize)> = vec![];
+        for it in 0..18 {
+            let gap = LIMIT as i64 - c as i64;
+            if gap == 0 {
+                found = Some((len, fine));
+                break;
+            }
+            seen.push((len, fine));
+            // alternate the knobs; on a cycle nudge the coarse one off the jump
+            if it % 2 == 0 && fine as i64 + gap >= 0 {
+                fine = (fine as i64 + gap) as usize;
+            } else {
+                len = (len as i64 + gap).max(1) as usize;
+            }
+            if seen.contains(&(len, fine)) {
+                len -= 3 + it;
+            }
+            c = size_at(len, fine, &mut probe);
+        }
+        let mut out = vec![];
+        let Some((len, fine)) = found else {
+            eprintln!("batch: no exact-boundary payload found (last size {c})");
+            return out;
+        };
+        // the smallest increment of the fine knob that pushes the payload over the limit
+        let mut over = 1usize;
+        while over < 8 && size_at(len, fine + over, &mut probe) <= LIMIT {
+            over += 1;
+        }
+        for delta in [0usize, over] {
+            let mut ops = vec!["batch reset filter=all last=0".to_string()];
+            if let Some(f) = &first {
+                ops.push(format!("batch recv {}", f.to_tokens()));
+            }
+            let mut spec = probe.clone();
+            spec.data[0].2 = len;
+            spec.data[1].2 = fine + delta;
+            ops.push(format!("batch recv {}", spec.to_tokens()));
+            Self::drain(&mut ops);
+            out.push(ops);
+        }
+        out
+    }
+}
+
 #[test]
 fn driver() {
-    let trace = common::Trace::from_env();
+    let rt = tokio::runtime::Builder::new_current_thread()
+        .enable_all()
+        .build()
+        .unwrap();
+    let _guard = rt.enter();
+    let mut trace = Trace::from_env();
+    let mut exec = Exec {
+        session: None,
+        metrics: metrics(),
+    };
+    let run = |trace: &mut Trace, exec: &mut Exec, op: &str| {
+        let res = exec.exec(op);
+        trace.line(&format!("{op} => {res}"));
+    };
+
+    if let Some(lines) = common::replay_lines() {
+        for l in lines {
+            run(&mut trace, &mut exec, &l);
+        }
+        trace.finish();
+        return;
+    }
+    for l in common::corpus_lines() {
+        run(&mut trace, &mut exec, &l);
+    }
+
+    let thorough = common::is_thorough();
+    let mut g = Gen {
+        rng: Rng::from_env(),
+        next_seed: 0,
+    };
+    let t0 = std::time::Instant::now();
+    let mut sessions: Vec<Vec<String>> = vec![];
+    for _ in 0..(if thorough { 400 } else { 100 }) {
+        sessions.push(g.small_session());
+    }
+    sessions.push(g.straddle_session(2, if thorough { 6 } else { 4 }));
+    sessions.push(g.straddle_session(2, if thorough { 5 } else { 3 }));
+    sessions.push(g.straddle_session(3, if thorough { 8 } else { 5 }));
+    sessions.push(g.straddle_session(4, if thorough { 9 } else { 6 }));
+    sessions.push(g.medium_session(if thorough { 14 } else { 10 }));
+    sessions.push(g.straddle_session(2, 4));
+    sessions.push(g.straddle_session(3, 6));
+    if thorough {
+        sessions.push(g.straddle_session(3, 7));
+        sessions.push(g.straddle_session(4, 9));
+        sessions.push(g.straddle_session(1, 3));
+        sessions.push(g.medium_session(12));
+    }
+    sessions.extend(g.oversize_sessions());
+    sessions.push(g.compressible_session());
+    sessions.extend(g.boundary_sessions(false));
+    sessions.extend(g.boundary_sessions(true));
+    eprintln!("batch: generated {} sessions in {:?}", sessions.len(), t0.elapsed());
+    for s in sessions {
+        for op in s {
+            run(&mut trace, &mut exec, &op);
+        }
+    }
+    eprintln!("batch: {} lines in {:?}", trace.lines, t0.elapsed());
     trace.finish();
 }
